@@ -425,12 +425,11 @@ struct EGioFile_st {int type; void*file;};
 /* ========================================================================= */
 int EGioWrite(EGioFile_t*file,const char*const string)
 {
-	char buf[EGio_BUFSIZE];
-	int len;
-	buf[EGio_BUFSIZE-1] = 0;
-	snprintf(buf,EGio_BUFSIZE,"%s",string);
-	len = strlen(buf);
-	if(len<=0 || len >= EGio_BUFSIZE || buf[EGio_BUFSIZE-1]!=0) return 0;
+	/* written as it is: a copy into a fixed buffer cut lines of more than
+	 * 4095 characters (a coefficient with thousands of digits) short */
+	const char *buf = string;
+	int len = (int) strlen(string);
+	if(len<=0) return 0;
 	switch(file->type)
 	{
 		case EGIO_PLAIN:
@@ -444,7 +443,7 @@ int EGioWrite(EGioFile_t*file,const char*const string)
 #endif
 		case EGIO_BZLIB:
 #ifdef HAVE_LIBBZ2
-			return BZ2_bzwrite((BZFILE*)(file->file),buf,len);
+			return BZ2_bzwrite((BZFILE*)(file->file),(void*)buf,len);
 #else
 			QSlog("no bzip2 support");
 			return 0;
@@ -458,12 +457,24 @@ int EGioWrite(EGioFile_t*file,const char*const string)
 int EGioPrintf(EGioFile_t*file,const char* format, ...)
 {
 	char buf[EGio_BUFSIZE];
+	char *big = 0;
+	int need, rval;
 	va_list va;
 	buf[EGio_BUFSIZE-1]=0;
 	va_start(va,format);
-	vsnprintf(buf,EGio_BUFSIZE,format,va);
+	need = vsnprintf(buf,EGio_BUFSIZE,format,va);
 	va_end(va);
-	return EGioWrite(file,buf);
+	if(need < 0) return 0;
+	if(need < EGio_BUFSIZE) return EGioWrite(file,buf);
+	/* longer than the stack buffer: format again into a block of the right size */
+	big = (char*)malloc((size_t)need+1);
+	if(!big) return 0;
+	va_start(va,format);
+	vsnprintf(big,(size_t)need+1,format,va);
+	va_end(va);
+	rval = EGioWrite(file,big);
+	free(big);
+	return rval;
 }
 /* ========================================================================= */
 EGioFile_t* EGioOpenFILE(FILE*ifile)
